@@ -383,6 +383,30 @@ func c14Learning(c *wk.Ctx, idx int64, r *rand.Rand, s *packet.Session, h *icmp_
 	}
 	cs := func() any { return map[string]any{"index": idx, "ra_frame_hex": wk.Hex(b)} }
 	c.Eval()
+	if r.Intn(6) == 0 {
+		// an advertisement whose IPv6 source is nobody's address (unspecified, a group, loopback): no station stands behind it,
+		// nothing is learned from it
+		src := []netip.Addr{netip.IPv6Unspecified(), netip.MustParseAddr("ff02::1"), netip.IPv6Loopback()}[r.Intn(3)]
+		dst := netip.MustParseAddr("ff02::1")
+		fb := refdec.Ether(refdec.MAC{0x33, 0x33, 0, 0, 0, 1}, rt.mac, 0x86dd, 0, refdec.IP6(refdec.IP6Hdr{Next: 58, Hop: 255, Src: src, Dst: dst, PayloadLen: -1},
+			refdec.ICMP6(src, dst, refdec.NDPRouterAdvert, 0, ra.Body())))
+		cs2 := func() any { return map[string]any{"index": idx, "ra_frame_hex": wk.Hex(fb), "source": src.String()} }
+		if pi := c.Guard("C08", cs2, func() {
+			for k := 0; k < 4; k++ {
+				if frame, err := s.Parse(append([]byte(nil), fb...)); err == nil {
+					h.ProcessPacket(frame)
+				}
+			}
+		}); pi != nil {
+			return
+		}
+		if got := h.FindRouter(src); got.Addr.IP.IsValid() || len(got.Addr.MAC) != 0 {
+			c.Viol("router:learned-from-nobody", fmt.Sprintf("a router advertisement with source %v put a router %v / %v into the table", src, got.Addr.IP, got.Addr.MAC), cs2())
+			return
+		}
+		c.Obs("ra_from_nobody_checked", 1)
+		return
+	}
 	if pi := c.Guard("C08", cs, func() {
 		// as in the read loop, every frame arrives in the same receive buffer, which the next frame overwrites: what the
 		// router table records must not depend on the buffer afterwards
